@@ -189,7 +189,9 @@ func (p *Plugin) Do(event *pipeline.Event) pipeline.ActionResult {
 	}
 
 	if p.isJoining {
-		if p.isNextOK(value) {
+		// only a string can continue the sequence (the start check has the same rule):
+		// an object or array has no text, it would be swallowed and its content lost.
+		if node.IsString() && p.isNextOK(value) {
 			if p.maxEventSize == 0 || len(p.buff) < p.maxEventSize {
 				p.buff = append(p.buff, value...)
 			}
